@@ -1,7 +1,8 @@
 /* C07: MEMORY-LEVEL contracts of the whole-buffer operations of Image (src/Image.cc): set_channel_width, set_has_alpha, copy / move.
- * These functions index the pixel buffer linearly (sample z, pixel z): no non-linear index, so loop contracts over a ghost sample /
- * pixel index close them for any canvas size (the product width*height is only an opaque element count; it must not wrap: both
- * dimensions below 2^RS_DIMBITS).  One instantiation per channel-width pair / alpha direction (-DOW -DNW -DHA). */
+ * The loops are closed by loop contracts over a ghost sample / pixel index, but the element count width*height*channels is a product of
+ * two symbolic values that occurs in the allocation size, the loop bound and the buffer size: BOUNDED in canvas dimension like the pixel
+ * accessors (both dimensions below 2^RS_DIMBITS).  One instantiation per channel-width pair / alpha direction (-DOW -DNW -DHA).
+ * Allocation is assumed to succeed (cbmc --no-malloc-may-fail): the code does not test the result of malloc. */
 #ifndef C07_RESHAPE_H
 #define C07_RESHAPE_H
 #include "contracts/C07_clauses.h"
@@ -10,7 +11,7 @@
 extern size_t g_k;                 /* ghost sample / pixel / byte index */
 extern uint64_t g_v, g_v1, g_v2;   /* ghost value idiom: the sample(s) at g_k on entry */
 #ifndef RS_DIMBITS
-#define RS_DIMBITS 28
+#define RS_DIMBITS 4             /* the element count width*height is a non-linear term: canvas dimensions below 2^4 (quick) / 2^5 (thorough), symbolic within the bound */
 #endif
 #define RS_DIM ((ssize_t)1 << RS_DIMBITS)
 #define NCHAN(ha) ((ha) ? 4 : 3)
@@ -75,9 +76,15 @@ __CPROVER_ensures(verif_exc == 0 && SAME_SHAPE(self, im))
 __CPROVER_ensures(__CPROVER_is_fresh(self->data.raw, BYTES(im)))
 __CPROVER_ensures(g_mk < BYTES(im) ==> BYTE_AT(self, g_mk) == BYTE_AT(im, g_mk))
 __CPROVER_assigns(verif_exc, __CPROVER_object_whole(self));
+/* the old buffer of an assignment target: none (-DOLD_NULL=1) or a heap object of its own */
+#if OLD_NULL
+#define OLD_BUF_REQ(self) __CPROVER_requires(self->data.raw == 0)
+#else
+#define OLD_BUF_REQ(self) __CPROVER_requires(__CPROVER_is_fresh(self->data.raw, 16))
+#endif
 void Image_copy_assign(Image* self, const Image* im)
 __CPROVER_requires(__CPROVER_is_fresh(self, sizeof(Image)))
-__CPROVER_requires(self->data.raw == 0 || __CPROVER_is_freeable(self->data.raw))
+OLD_BUF_REQ(self)
 SRC_IMG_REQ(im)
 __CPROVER_requires(verif_exc == 0)
 __CPROVER_ensures(verif_exc == 0 && SAME_SHAPE(self, im))
@@ -96,7 +103,7 @@ __CPROVER_ensures(EMPTIED(im))
 __CPROVER_assigns(__CPROVER_object_whole(self), __CPROVER_object_whole(im));
 void Image_move_assign(Image* self, Image* im)
 __CPROVER_requires(__CPROVER_is_fresh(self, sizeof(Image)))
-__CPROVER_requires(self->data.raw == 0 || __CPROVER_is_freeable(self->data.raw))
+OLD_BUF_REQ(self)
 __CPROVER_requires(__CPROVER_is_fresh(im, sizeof(Image)))
 __CPROVER_ensures(self->width == __CPROVER_old(im->width) && self->height == __CPROVER_old(im->height) && self->has_alpha == __CPROVER_old(im->has_alpha))
 __CPROVER_ensures(self->channel_width == __CPROVER_old(im->channel_width) && self->max_value == __CPROVER_old(im->max_value) && self->data.raw == __CPROVER_old(im->data.raw))
